@@ -58,7 +58,7 @@ def log_2d_cartesian_prior_sine(x, y, k=np.pi):
     if k != np.pi:
         raise RuntimeError("x prime prior is incompatible with k != pi")
     r = x**2 + y**2
-    y[y < 0] = 0
+    y = np.where(y < 0, 0, y)
     return np.log(y / 2) - 0.5 * np.log(r) - (r / 2)
 
 
